@@ -108,7 +108,12 @@ pub fn check_track(o: &mut Outcome, name: &str, t: &Track, exp: &[&ExpSample], i
             );
         }
     } else {
-        o.unconstrained.push("mdhd_sum_beyond_32bit(C16)".into());
+        // a version-0 mdhd cannot hold the sum: whatever it declares differs from the sum of the sample durations
+        o.fail(
+            "mdhd_sum",
+            format!("mdhd_sum.{}.beyond_32bit", name),
+            format!("{}: the sample durations sum to {} (> 2^32 - 1) but mdhd is version 0 and declares {}", name, sum, t.mdhd.duration),
+        );
     }
 }
 
